@@ -280,5 +280,7 @@ def run(ctx: Ctx, rep: Report, tier: str):
              "(CloudTemporaryError is re-raised before the catch-all of __safe_call_resolver, C05.V2): it is reported and retried, not taken for a broken resolver", 1,
              lambda: _C05(ctx, rep).run(), keep=lambda i: i.rule == "C05.V2" and i.key == "resolver|temporary-propagates")
     from rules.decisions import decision_table, table_sites
-    rep.rule("C10.T15", "decision table of the step frame: every action site of _sync_one_entry, do and the name-error / corrupt handlers (punt, backoff, notification, commit, per handler type) is reached under exactly the recorded path condition", table_sites("C10"))
-    section(rep, lambda: decision_table(ctx, rep, "C10.T15", "C10"))
+    rep.rule("C10.DT", "decision table (rules/decisions.json) of the step frames of the sync and event managers: punt, backoff, reconnect, notification and commit per failure kind: for every function and every action shape (an impure call with the parameters it passes, a store to an "
+             "attribute or item, a delete, a returned constant, a yield, a raise) the set of states - over the function's guard atoms - in which the action is taken "
+             "equals the recorded one; compared as canonical decision diagrams, so any equivalent respelling of the guards is the same table", table_sites("C10"))
+    section(rep, lambda: decision_table(ctx, rep, "C10.DT", "C10"))
